@@ -220,8 +220,11 @@ Proof. exact ssn_piped. Qed.
 Print Assumptions core_ssn_piped.
 
 (* token-hood: candidates of a standard symbol (atom or quoted symbol) are
-   standard symbols of the same kind; see Examples.ex_names_liberal_* for the
-   liberal atoms, where this fails *)
+   standard symbols of the same kind.  (Since the scanner's fix F41 there are no liberal
+   atoms any more -- Examples.ex_names_no_liberal --, so [core_ssn_atom] covers every
+   well-formed leaf that is not piped, not a string literal and not a comment:
+   [core_ssn_leaf_wf] below; string literals and comments stay outside,
+   Examples.ex_names_strlit / ex_names_comment.) *)
 Theorem core_ssn_atom : forall (isvar : str -> bool) s t,
   atom_ok s = true -> In t (ssn_names isvar s) -> atom_ok t = true.
 Proof. exact ssn_atom. Qed.
@@ -237,6 +240,13 @@ Theorem core_ssn_symbol_wf : forall (isvar : str -> bool) s t,
   leaf_std t = true /\ wf (L t) = true.
 Proof. exact ssn_symbol_wf. Qed.
 Print Assumptions core_ssn_symbol_wf.
+
+Theorem core_ssn_leaf_wf : forall (isvar : str -> bool) s t,
+  wf (L s) = true -> strlit_ok s = false -> comment_ok s = false ->
+  In t (ssn_names isvar s) ->
+  leaf_std t = true /\ wf (L t) = true.
+Proof. exact ssn_leaf_wf. Qed.
+Print Assumptions core_ssn_leaf_wf.
 
 (* ================= non-vacuity ================= *)
 Example core_ex_erase :
